@@ -930,3 +930,121 @@ Proof.
   unfold render. intros H. destruct (render_lines c false (o_indent o) x) as [ls|e] eqn:E; cbn [bind] in H; [|discriminate].
   apply (render_lines_ok c (o_indent o) x). exists ls. exact E.
 Qed.
+
+(* ------------------------------------------------------------------ 5. what the undecorated bytes say *)
+(* the text between two tags after indentation: every line but the first gets the blanks (empty lines stay empty),
+   and so does the closing tag after a final line break *)
+Lemma ind_text_lines n s :
+  ind_text n s = join_with NL (indent_rest n false (split_on NL s)) ++ pad (spaces n) (at_start false s).
+Proof. unfold ind_text. now rewrite <- expand_join. Qed.
+Lemma ind_text_no_nl n s : no_nl s -> ind_text n s = s.
+Proof.
+  intros Hs. unfold ind_text. destruct s as [|c r]; [reflexivity|].
+  rewrite (expand_no_nl NLs (spaces n) (c :: r) false Hs ltac:(discriminate)), (at_start_no_nl (c :: r) false Hs ltac:(discriminate)).
+  cbn [pad]. rewrite app_nil_r. reflexivity.
+Qed.
+Lemma msg_text_no_nl m : no_nl m -> msg_text m = m.
+Proof.
+  intros Hm. unfold msg_text. rewrite replace_single. induction Hm as [|c r Hc Hr IH]; [reflexivity|]. cbn [flat_map].
+  destruct (N.eqb_spec c NL); [contradiction|]. now rewrite IH.
+Qed.
+(* the message as the full report shows it: two blanks after every line break *)
+Lemma msg_text_spec m : msg_text m = flat_map (fun c => if N.eqb c NL then [NL; 32; 32]%N else [c]) m.
+Proof. apply replace_single. Qed.
+
+Lemma shown_line_blank ind : shown_line (ind, []) = [NL].
+Proof. unfold shown_line, wpieces. cbn [fst snd]. destruct (0 <? ind)%Z; reflexivity. Qed.
+Lemma shown_line_named ind nm s :
+  shown_line (ind, [PNamed nm s])
+  = (if (0 <? ind)%Z then spaces ind ++ shown (ind_text ind s) else shown s) ++ [NL].
+Proof.
+  unfold shown_line, wpieces. cbn [fst snd]. destruct (0 <? ind)%Z; cbn [ind_pieces ind_piece app flat_map piece_shown pad]; now rewrite !app_nil_r.
+Qed.
+
+(* simple mode: the message, shown (a blank after a trailing backslash), indented, and a line break *)
+Theorem simple_bytes sty c o x : out_ok sty o -> resolvable sty st_error -> decorated o = false ->
+  render c true o x
+  = Ok (o_buf o ++ (if (0 <? o_indent o)%Z then spaces (o_indent o) ++ shown (ind_text (o_indent o) (x_msg x)) else shown (x_msg x)) ++ [NL]).
+Proof.
+  intros Ho Herr Hd. unfold render, render_lines. cbn [bind]. rewrite simple_line_pieces.
+  destruct (write_lines_pieces sty [(o_indent o, simple_pieces x)] o Ho) as (o' & HW & _ & _ & _ & HB).
+  { constructor; [apply simple_pieces_ok, Herr|constructor]. }
+  { rewrite Hd. discriminate. }
+  match goal with |- bind ?w _ = _ => replace w with (@Ok outp o') by (symmetry; exact HW) end. cbn [bind]. rewrite (HB Hd). cbn [flat_map]. unfold simple_pieces. rewrite shown_line_named, app_nil_r. reflexivity.
+Qed.
+Corollary simple_bytes_0 sty c o x : out_ok sty o -> resolvable sty st_error -> decorated o = false -> (o_indent o <= 0)%Z ->
+  render c true o x = Ok (o_buf o ++ shown (x_msg x) ++ [NL]).
+Proof.
+  intros Ho Herr Hd Hi. rewrite (simple_bytes sty c o x Ho Herr Hd). destruct (Z.ltb_spec 0 (o_indent o)); [lia|reflexivity].
+Qed.
+Corollary simple_bytes_one_line sty c o x : out_ok sty o -> resolvable sty st_error -> decorated o = false -> (0 <= o_indent o)%Z ->
+  no_nl (x_msg x) -> render c true o x = Ok (o_buf o ++ spaces (o_indent o) ++ shown (x_msg x) ++ [NL]).
+Proof.
+  intros Ho Herr Hd Hi Hm. rewrite (simple_bytes sty c o x Ho Herr Hd), (ind_text_no_nl _ _ Hm).
+  destruct (Z.ltb_spec 0 (o_indent o)) as [|Hle]; [now rewrite <- app_assoc|].
+  assert (o_indent o = 0%Z) as -> by lia. reflexivity.
+Qed.
+
+(* full mode: the stack trace (if any), a blank line, the class name, a blank line, the message block, the snippet *)
+Theorem full_bytes sty c o x bytes :
+  out_ok sty o -> resolvable sty st_error -> resolvable sty st_b -> decorated o = false -> (0 <= o_indent o)%Z ->
+  x_frames x <> [] -> render c false o x = Ok bytes ->
+  let ind := (o_indent o + 2)%Z in
+  exists tr_p sn_p,
+    render_trace c ind (x_frames x) = Ok (map pline_w tr_p) /\
+    render_snippet c ind (last (x_frames x) dflt_frame) = Ok (map pline_w sn_p) /\
+    bytes = o_buf o ++ flat_map shown_line tr_p
+              ++ [NL] ++ spaces ind ++ shown (ind_text ind (x_name x)) ++ [NL]
+              ++ [NL] ++ spaces ind ++ shown (ind_text ind (msg_text (x_msg x))) ++ [NL]
+              ++ flat_map shown_line sn_p.
+Proof.
+  intros Ho Herr Hb Hd Hi Hne HR ind. unfold render in HR.
+  destruct (render_lines c false (o_indent o) x) as [ls|e] eqn:HL; cbn [bind] in HR; [|discriminate].
+  unfold render_lines in HL. fold ind in HL. unfold render_exception in HL. fold dflt_frame in HL.
+  destruct (x_frames x) as [|f0 fs] eqn:EF; [congruence|]. rewrite <- EF in *.
+  destruct (render_trace c ind (x_frames x)) as [tr|e] eqn:ET; cbn [bind] in HL; [|discriminate].
+  destruct (render_snippet c ind (last (x_frames x) dflt_frame)) as [sn|e] eqn:ES; cbn [bind] in HL; [|discriminate].
+  destruct (good_lines_pieces sty tr (good_render_trace sty Hb c ind _ tr ET)) as (tr_p & Etr & Htr).
+  destruct (good_lines_pieces sty sn (good_render_snippet sty Hb c ind _ sn ES)) as (sn_p & Esn & Hsn).
+  exists tr_p, sn_p. subst tr sn. split; [reflexivity|]. split; [reflexivity|].
+  set (mid := [(ind, []); (ind, name_pieces x); (ind, []); (ind, msg_pieces x)] : list pline).
+  assert (ls = map pline_w (tr_p ++ mid ++ sn_p)) as El.
+  { assert (map pline_w mid = render_line ind (name_line x) true 0 ++ [(ind, [])] ++ render_line ind (msg_line x) false 0) as Emid
+      by (rewrite name_line_pieces, msg_line_pieces; reflexivity).
+    rewrite !map_app, Emid. injection HL as <-. rewrite <- ?app_assoc. reflexivity. }
+  destruct (write_lines_pieces sty (tr_p ++ mid ++ sn_p) o Ho) as (o' & HW & _ & _ & _ & HB).
+  { apply Forall_app. split; [exact Htr|]. apply Forall_app. split; [|exact Hsn]. unfold mid.
+    constructor; [constructor|]. constructor; [apply name_pieces_ok, Herr|]. constructor; [constructor|].
+    constructor; [apply msg_pieces_ok, Hb|constructor]. }
+  { rewrite Hd. discriminate. }
+  rewrite El, HW in HR. cbn [bind] in HR. injection HR as <-. rewrite (HB Hd), !flat_map_app. unfold mid. cbn [flat_map].
+  unfold name_pieces, msg_pieces. rewrite !shown_line_blank, !shown_line_named.
+  destruct (Z.ltb_spec 0 ind) as [_|Hle]; [|unfold ind in Hle; lia]. rewrite <- ?app_assoc. cbn [app]. rewrite <- ?app_assoc. reflexivity.
+Qed.
+(* class names hold no line break: the class-name line is the name itself, between two blank lines *)
+Corollary full_bytes_name sty c o x bytes :
+  out_ok sty o -> resolvable sty st_error -> resolvable sty st_b -> decorated o = false -> (0 <= o_indent o)%Z ->
+  x_frames x <> [] -> no_nl (x_name x) -> render c false o x = Ok bytes ->
+  let ind := (o_indent o + 2)%Z in
+  exists pre post, (pre = [] \/ exists pre', pre = pre' ++ [NL]) /\
+    bytes = o_buf o ++ pre ++ [NL] ++ spaces ind ++ shown (x_name x) ++ [NL] ++ [NL]
+              ++ spaces ind ++ shown (ind_text ind (msg_text (x_msg x))) ++ [NL] ++ post.
+Proof.
+  intros Ho Herr Hb Hd Hi Hne Hn HR ind.
+  destruct (full_bytes sty c o x bytes Ho Herr Hb Hd Hi Hne HR) as (tr_p & sn_p & _ & _ & E). fold ind in E.
+  rewrite (ind_text_no_nl ind _ Hn) in E. exists (flat_map shown_line tr_p), (flat_map shown_line sn_p). split; [|exact E].
+  destruct tr_p as [|p r] using rev_ind; [left; reflexivity|right]. rewrite flat_map_app. cbn [flat_map]. unfold shown_line at 2.
+  rewrite app_nil_r, app_assoc. eexists. reflexivity.
+Qed.
+(* a one-line message is shown as it is *)
+Corollary full_bytes_one_line sty c o x bytes :
+  out_ok sty o -> resolvable sty st_error -> resolvable sty st_b -> decorated o = false -> (0 <= o_indent o)%Z ->
+  x_frames x <> [] -> no_nl (x_name x) -> no_nl (x_msg x) -> render c false o x = Ok bytes ->
+  let ind := (o_indent o + 2)%Z in
+  exists pre post, (pre = [] \/ exists pre', pre = pre' ++ [NL]) /\
+    bytes = o_buf o ++ pre ++ [NL] ++ spaces ind ++ shown (x_name x) ++ [NL] ++ [NL] ++ spaces ind ++ shown (x_msg x) ++ [NL] ++ post.
+Proof.
+  intros Ho Herr Hb Hd Hi Hne Hn Hm HR ind.
+  destruct (full_bytes_name sty c o x bytes Ho Herr Hb Hd Hi Hne Hn HR) as (pre & post & Hpre & E). fold ind in E.
+  rewrite (msg_text_no_nl _ Hm), (ind_text_no_nl ind _ Hm) in E. exists pre, post. split; [exact Hpre|exact E].
+Qed.
